@@ -177,7 +177,7 @@ Proof.
   destruct (ext_loop mname mmatch ms ext) as [kept|] eqn:Ek; [|destruct Hl].
   destruct kept as [|k0 kr]; [destruct Hl|].
   apply in_map_iff in Hl as [sl [El Hs]]. apply filter_In in Hs as [Hs _].
-  exists ext, stored, sl. split; [exact Hb|]. split; [exact Hs|]. split; [symmetry; exact El | discriminate].
+  exists ext, stored, sl. split; [exact Hb|]. split; [exact Hs|]. split; [symmetry; exact El | rewrite Ek; discriminate].
 Qed.
 
 (* every series of a BucketStore response carries the external labels of its block that were
